@@ -292,10 +292,16 @@ func storeHistory(o *Out, r *rand.Rand, h, nPuts int, thorough bool) {
 				gid[r.Intn(32)] ^= 1 << uint(r.Intn(8))
 			}
 			v, err := st.Get(contentKey(), gid)
+			// is the item in the database (raw read under the xor key)?
+			present := 0
+			if _, closer, rerr := db.Get(xorKey(gid, node[:])); rerr == nil {
+				present = 1
+				closer.Close()
+			}
 			if err != nil {
-				o.Case("get id="+hex.EncodeToString(gid), "notfound")
+				o.Case(fmt.Sprintf("get id=%s present=%d", hex.EncodeToString(gid), present), "notfound")
 			} else {
-				o.Case("get id="+hex.EncodeToString(gid), fmt.Sprintf("val=%d:%016x", len(v), fnv(v)))
+				o.Case(fmt.Sprintf("get id=%s present=%d", hex.EncodeToString(gid), present), fmt.Sprintf("val=%d:%016x", len(v), fnv(v)))
 				if len(rets) < 400 {
 					rets = append(rets, retained{v, append([]byte{}, v...)})
 				}
